@@ -150,15 +150,14 @@ From IBL.C10 Require Import Select.
    read(s)[1] return one row per selected sample, in selector order, each the
    16 decoded lines of that sample followed by its thresholded analog lines
    (floors over the selected samples).  An integer selector keeps a (1, .) row.
-   An empty selection gives zero rows, floor on or off.  Domain: one sync word; for integer
-   selectors on recordings WITH analog sync see C10_integer_selector_with_analog (pooled floor). *)
+   An empty selection gives zero rows, floor on or off.  Domain: one sync word, any
+   number of analog channels, every selector form. *)
 Theorem C10_rows_follow_the_selector :
   forall typ ntr c0 c1 c2 c3 s one thr gain use_floor raw d rows,
   nsync_of typ c0 c1 c2 c3 = 1 -> 1 <= ntr ->
   (forall r, In r raw -> Z.of_nat (List.length r) = ntr) ->
   (forall i, In i (analog_indices typ c0 c1 c2 c3) -> 0 <= i < ntr) ->
   IBL.C01.Model.np_index1 raw s = IBL.C01.Model.Ok (d, rows) ->
-  (d = false \/ analog_indices typ c0 c1 c2 c3 = []) ->
   let floors := floors_of use_floor (analog_volts typ c0 c1 c2 c3 gain rows)
                           (List.length (analog_indices typ c0 c1 c2 c3)) in
   read_sync_sel typ ntr c0 c1 c2 c3 s one thr gain use_floor raw =
@@ -185,25 +184,29 @@ Theorem C10_selector_commutes_with_decoding :
 Proof. exact read_sync_sel_is_selection. Qed.
 Print Assumptions C10_selector_commutes_with_decoding.
 
-(* integer selector on a recording WITH analog sync channels (repair ccd27fe):
-   the (1, 16+k) row comes back; it is the row of the one-element list / slice
-   when the floor is off or there is a single analog channel; with the floor on
-   and k >= 2 the floor is pooled over the k channels of that one sample, so
-   the row differs from read_sync([i]) — the faithful model violates "each
-   analog line depends on its own channel alone" there (known finding F-C10-g);
-   on any layout read_sync(-1) is the last sample, never the empty slice(-1, 0) *)
+(* For ALL inputs (repairs ccd27fe, bb56ef1): read_sync(i) = read_sync([i]) — same
+   outcome, error included —, and any two selectors that pick the same samples
+   (e.g. the one-element slice) return the same rows; floor on or off, any
+   number of analog channels.  read_sync(-1) is the last sample, never the
+   empty slice(-1, 0). *)
 Theorem C10_integer_selector_with_analog :
+  (forall typ ntr c0 c1 c2 c3 i one thr gain use_floor raw,
+     read_sync_sel typ ntr c0 c1 c2 c3 (IBL.C01.Model.SInt i) one thr gain use_floor raw =
+     read_sync_sel typ ntr c0 c1 c2 c3 (IBL.C01.Model.SList [i]) one thr gain use_floor raw) /\
+  (forall typ ntr c0 c1 c2 c3 s1 s2 one thr gain use_floor raw d1 d2 rows,
+     IBL.C01.Model.np_index1 raw s1 = IBL.C01.Model.Ok (d1, rows) ->
+     IBL.C01.Model.np_index1 raw s2 = IBL.C01.Model.Ok (d2, rows) ->
+     read_sync_sel typ ntr c0 c1 c2 c3 s1 one thr gain use_floor raw =
+     read_sync_sel typ ntr c0 c1 c2 c3 s2 one thr gain use_floor raw).
+Proof. split; [exact read_sync_sel_int_list|exact read_sync_sel_same_rows]. Qed.
+Print Assumptions C10_integer_selector_with_analog.
+
+Example C10_example_integer_selector :
   let raw := [[100; 27000; 1]; [20000; 27000; 2]; [10; 27000; -1]] in
   let rs := fun s fl => read_sync_sel 1 3 0 0 2 1 s 1024 1200 1 fl raw in
-  rs (IBL.C01.Model.SInt (-1)) false = rs (IBL.C01.Model.SList [-1]) false /\
   rs (IBL.C01.Model.SInt 1) false = Some [split_word 2 ++ [1; 1]] /\
-  rs (IBL.C01.Model.SInt 1) false = rs (IBL.C01.Model.SSlice (Some 1) (Some 2) None) false /\
-  (* one analog channel, floor on: same as the list *)
-  read_sync_sel 1 2 0 0 1 1 (IBL.C01.Model.SInt 1) 1024 1200 1 true [[100; 1]; [20000; 2]] =
-  read_sync_sel 1 2 0 0 1 1 (IBL.C01.Model.SList [1]) 1024 1200 1 true [[100; 1]; [20000; 2]] /\
-  (* two analog channels, floor on: pooled floor *)
-  rs (IBL.C01.Model.SInt (-1)) true = Some [split_word (-1) ++ [0; 1]] /\
-  rs (IBL.C01.Model.SList [-1]) true = Some [split_word (-1) ++ [0; 0]] /\
-  rs (IBL.C01.Model.SSlice (Some (-1)) (Some 0) None) true = Some [].
+  rs (IBL.C01.Model.SInt (-1)) true = Some [split_word (-1) ++ [0; 0]] /\
+  rs (IBL.C01.Model.SSlice (Some 2) (Some 3) None) true = Some [split_word (-1) ++ [0; 0]] /\
+  rs (IBL.C01.Model.SSlice (Some (-1)) (Some 0) None) true = Some [] /\
+  rs (IBL.C01.Model.SInt 3) true = None.
 Proof. vm_compute. repeat split. Qed.
-Print Assumptions C10_integer_selector_with_analog.
